@@ -429,7 +429,7 @@ func c13List(p *model.Prog, r *report.Result) {
 		unlinks++
 		r.Bad("C13.LIST", fkey(fn, "unlink", "in-insert"), p.InstrPos(st), "Insert re-links existing items (drops one from the list) without decreasing Size: Size grows beyond the number of items, and the GB28181 drop loop (for Size > 0 { PeekFirst() }) dereferences a nil head")
 	}
-	if links < 2 {
+	if links < 1 {
 		r.Bad("C13.LIST", fkey(fn, "link", "floor"), p.Pos(fn.Pos()), "the link sites of RtpPacketList.Insert were not found")
 	}
 	_ = unlinks
@@ -438,46 +438,93 @@ func c13List(p *model.Prog, r *report.Result) {
 // c14r89: the simple-auth switches pair each enable flag with its own protocol; re-adding a
 // black-listed address never shortens or drops the ban.
 func c14r89(p *model.Prog, r *report.Result) {
-	r.Rule("C14.R8", "in SimpleAuthCtx.OnPubStart / OnSubStart each enable flag guards the protocol constant of the same protocol (PubRtmpEnable~RTMP, PubRtspEnable~RTSP, SubRtmpEnable~RTMP, SubHttpflvEnable~FLV, SubHttptsEnable~TS, SubRtspEnable~RTSP) and every flag of that direction is consulted")
+	r.Rule("C14.R8", "in SimpleAuthCtx.OnPubStart / OnSubStart, for every protocol with an enable switch (PubRtmpEnable~RTMP, PubRtspEnable~RTSP, SubRtmpEnable~RTMP, SubHttpflvEnable~FLV, SubHttptsEnable~TS, SubRtspEnable~RTSP) and every assignment of the direction's switches, every path of the method for a request of that protocol calls SimpleAuthCtx.check exactly when that protocol's switch is on (path enumeration with the protocol comparisons and switch loads fixed)")
 	want := map[string]string{"PubRtmpEnable": "SessionProtocolRtmpStr", "PubRtspEnable": "SessionProtocolRtspStr", "SubRtmpEnable": "SessionProtocolRtmpStr", "SubHttpflvEnable": "SessionProtocolFlvStr", "SubHttptsEnable": "SessionProtocolTsStr", "SubRtspEnable": "SessionProtocolRtspStr"}
 	constName := map[string]string{}
 	for _, n := range []string{"SessionProtocolRtmpStr", "SessionProtocolRtspStr", "SessionProtocolFlvStr", "SessionProtocolTsStr"} {
 		c := p.Const("pkg/base", n)
 		constName[strings.Trim(c.Val().ExactString(), "\"")] = n
 	}
-	seen := map[string]bool{}
+	// decided by enumeration, not by the shape of the condition: for every protocol value and
+	// every assignment of the direction's switches, the paths through the method (protocol
+	// comparisons and switch loads fixed, everything else branching both ways) reach the secret
+	// check exactly when the switch of that protocol is on
+	checkFn := p.Method("pkg/logic", "SimpleAuthCtx", "check")
+	dirFlags := map[string][]string{"OnPubStart": {"PubRtmpEnable", "PubRtspEnable"}, "OnSubStart": {"SubRtmpEnable", "SubHttpflvEnable", "SubHttptsEnable", "SubRtspEnable"}}
 	for _, mname := range []string{"OnPubStart", "OnSubStart"} {
 		fn := p.Method("pkg/logic", "SimpleAuthCtx", mname)
-		for _, b := range fn.Blocks {
-			iff, ok := b.Instrs[len(b.Instrs)-1].(*ssa.If)
-			if !ok {
-				continue
+		flags := dirFlags[mname]
+		var protoField *types.Var
+		bad := map[string]string{}
+		undecided := ""
+		for _, fl := range flags {
+			proto := want[fl]
+			protoVal := ""
+			for v, n := range constName {
+				if n == proto {
+					protoVal = v
+				}
 			}
-			fld := model.LoadedField(iff.Cond)
-			if fld == nil || want[fld.Name()] == "" {
-				continue
-			}
-			// the true edge leads to the protocol comparison
-			nb := b.Succs[0]
-			iff2, ok := nb.Instrs[len(nb.Instrs)-1].(*ssa.If)
-			got := ""
-			if ok {
-				if cmp, isCmp := iff2.Cond.(*ssa.BinOp); isCmp && cmp.Op == token.EQL {
-					if s, isS := model.ConstString(cmp.Y); isS {
-						got = constName[s]
+			for mask := 0; mask < 1<<uint(len(flags)); mask++ {
+				on := map[string]bool{}
+				for i, f := range flags {
+					on[f] = mask&(1<<uint(i)) != 0
+				}
+				ev := &cEval{fn: fn, maxVisits: 4, maxPaths: 512}
+				ev.seed = func(v ssa.Value) (int64, bool) {
+					if f := model.LoadedField(v); f != nil {
+						if val, isFlag := on[f.Name()]; isFlag {
+							return b2i(val), true
+						}
 					}
-					if s, isS := model.ConstString(cmp.X); isS {
-						got = constName[s]
+					if cmp, ok := v.(*ssa.BinOp); ok && (cmp.Op == token.EQL || cmp.Op == token.NEQ) {
+						var other ssa.Value
+						cs, isS := model.ConstString(cmp.Y)
+						other = cmp.X
+						if !isS {
+							cs, isS = model.ConstString(cmp.X)
+							other = cmp.Y
+						}
+						if isS {
+							if f := model.LoadedField(other); f != nil && f.Name() == "Protocol" {
+								protoField = f
+								return b2i((cs == protoVal) == (cmp.Op == token.EQL)), true
+							}
+						}
+					}
+					return 0, false
+				}
+				ev.event = func(in ssa.Instruction) string {
+					if c, ok := in.(ssa.CallInstruction); ok && c.Common().StaticCallee() == checkFn {
+						return "check"
+					}
+					return ""
+				}
+				ev.run()
+				if ev.undecided != "" {
+					undecided = ev.undecided
+					continue
+				}
+				for _, pth := range ev.paths {
+					checked := pth.counts["check"] > 0
+					if checked != on[fl] && bad[fl] == "" {
+						if on[fl] {
+							bad[fl] = fmt.Sprintf("with %s on (switches %v) a %s request reaches a return without the secret check", fl, on, proto)
+						} else {
+							bad[fl] = fmt.Sprintf("with %s off (switches %v) a %s request is still put through the secret check", fl, on, proto)
+						}
 					}
 				}
 			}
-			seen[fld.Name()] = true
-			r.Check(got == want[fld.Name()], "C14.R8", fkey(fn, "flag", fld.Name()), p.InstrPos(iff), fld.Name()+" guards "+got, fmt.Sprintf("%s guards the protocol test %q instead of %s: with differing per-protocol switches one protocol is admitted unchecked (or checked although switched off)", fld.Name(), got, want[fld.Name()]))
 		}
-	}
-	for f := range want {
-		if !seen[f] {
-			r.Bad("C14.R8", "flag|"+f, "", "the switch "+f+" is never consulted: that protocol's requests skip the secret check")
+		_ = protoField
+		for _, fl := range flags {
+			switch {
+			case undecided != "":
+				r.Bad("C14.R8", fkey(fn, "flag", fl), p.Pos(fn.Pos()), "cannot enumerate the paths of "+mname+": "+undecided)
+			default:
+				r.Check(bad[fl] == "", "C14.R8", fkey(fn, "flag", fl), p.Pos(fn.Pos()), fl+" decides the secret check for "+want[fl]+" requests, for every assignment of the other switches", bad[fl]+": with differing per-protocol switches one protocol is admitted unchecked (or checked although switched off)")
+			}
 		}
 	}
 
